@@ -78,7 +78,7 @@ func c05IOAux(c *mon.Ctx) {
 	nDir := directedCount(c)
 	tail := directedSmallTail(c) // SAN-sibling, generated-pool, extension-shape and CRL-shape families: complete; positional and DN-text: 1 in 17
 	for k := 0; k < nDir; k++ {
-		if k%17 != 0 && k < nDir-tail {
+		if k < nDir-tail && !directedSampled(c, k, 17) {
 			continue
 		}
 		if o, _ := directedCase(c, k); o != nil {
